@@ -101,7 +101,7 @@ Section Oracles.
     forallb (fun f => forallb (fun v => negb (is_self (fst (fst f)) v)) (snd f)) point_fields.
 
   (* ---- per-point soundness/completeness for eagerly created, fully processed holders ------------ *)
-  Definition checked_holder (h : name) : bool := eager h && negb (is_proc h).
+  Definition checked_holder (h : name) : bool := eager h && negb (is_proc h) && negb (short_target h).
 
   Definition point_ok (h : name) (kp : nat * point) : bool :=
     let (k, p) := kp in
